@@ -140,10 +140,11 @@ type fakeAPI struct {
 
 func (f *fakeAPI) RoundTrip(req *http.Request) (*http.Response, error) {
 	var wire bytes.Buffer
+	wire.Grow(int(req.ContentLength) + 1024)
 	if err := req.Write(&wire); err != nil {
 		return nil, fmt.Errorf("fakeAPI: cannot serialise request: %w", err)
 	}
-	sr, err := http.ReadRequest(bufio.NewReader(&wire))
+	sr, err := http.ReadRequest(bufio.NewReaderSize(&wire, 1024))
 	if err != nil {
 		return nil, fmt.Errorf("fakeAPI: serialised request does not parse: %w", err)
 	}
@@ -158,6 +159,7 @@ func (f *fakeAPI) RoundTrip(req *http.Request) (*http.Response, error) {
 		a = answer{Status: 200, Lines: []string{"Content-Type: text/plain", "X-Followed: yes"}, Body: []byte("FOLLOWED-REDIRECT-TARGET")}
 	}
 	var raw bytes.Buffer
+	raw.Grow(len(a.Body) + 512)
 	fmt.Fprintf(&raw, "HTTP/1.1 %d %s\r\n", a.Status, http.StatusText(a.Status))
 	for _, l := range a.Lines {
 		raw.WriteString(l + "\r\n")
@@ -174,7 +176,7 @@ func (f *fakeAPI) RoundTrip(req *http.Request) (*http.Response, error) {
 	if !noBody && req.Method != "HEAD" {
 		raw.Write(a.Body)
 	}
-	return http.ReadResponse(bufio.NewReader(&raw), req)
+	return http.ReadResponse(bufio.NewReaderSize(&raw, 1024), req)
 }
 
 func (f *fakeAPI) arm(a answer) { f.mu.Lock(); f.seen, f.ans = nil, a; f.mu.Unlock() }
@@ -242,6 +244,7 @@ func sortedKeys(h http.Header) []string {
 
 func clientWire(method, target string, lines []string, body []byte) []byte {
 	var b bytes.Buffer
+	b.Grow(len(body) + 512)
 	fmt.Fprintf(&b, "%s %s HTTP/1.1\r\nHost: refinery.test:8080\r\n", method, target)
 	for _, l := range lines {
 		b.WriteString(l + "\r\n")
@@ -290,184 +293,244 @@ func main() {
 		pool <- newWorld()
 	}
 	listeners := []pipeline.Listener{pipeline.Incoming, pipeline.Peer}
-	// quick: the 1 MiB upstream body is crossed with everything except the listener (peer listener: the three
-	// smaller bodies); thorough: the full product.
-	quick := !r.Thorough()
 
-	dims := []int{len(methods), len(paths), len(queries), len(reqBodies), len(reqHdrSets), len(statuses), len(upHdrSets), len(upBodies), len(listeners)}
-	enumx.Each(r, "proxy", dims, workers, func(idx []int) {
-		method, pc, q, rb, rh := methods[idx[0]], paths[idx[1]], queries[idx[2]], reqBodies[idx[3]], reqHdrSets[idx[4]]
-		st, uh, ub, l := statuses[idx[5]], upHdrSets[idx[6]], upBodies[idx[7]], listeners[idx[8]]
-		if in(pc.HandledFor, method) {
-			r.Add("skipped_handled_by_refinery", 1)
-			return
+	// The enumeration is a list of blocks; each block is a full cartesian product over the listed index sets.
+	// thorough: one block = the full product of all domains.
+	// quick:    A  everything x {empty, small} request bodies x {empty, small, binary} upstream bodies on the incoming listener
+	//           B  the 1 MiB bodies ({1 MiB request, 1 MiB answer, both}) x every method x every status, incoming listener, one path
+	//           C  the peer listener x everything with small bodies
+	type block struct {
+		name string
+		sets [9][]int // methods, paths, queries, reqBodies, reqHdrSets, statuses, upHdrSets, upBodies, listeners
+		keep func(idx []int) bool
+	}
+	all := func(n int) []int {
+		o := make([]int, n)
+		for i := range o {
+			o[i] = i
 		}
-		if quick && l == pipeline.Peer && (ub.Name == "1MiB" || rb.Name == "1MiB") {
-			r.Add("skipped_quick_peer_1MiB", 1)
-			return
+		return o
+	}
+	full := [9][]int{all(len(methods)), all(len(paths)), all(len(queries)), all(len(reqBodies)), all(len(reqHdrSets)), all(len(statuses)), all(len(upHdrSets)), all(len(upBodies)), all(len(listeners))}
+	blocks := []block{{name: "full", sets: full}}
+	if !r.Thorough() {
+		a, b, c := full, full, full
+		a[3], a[7], a[8] = []int{0, 1}, []int{0, 1, 2}, []int{0}
+		b[1], b[2], b[3], b[4], b[6], b[7], b[8] = []int{2}, []int{1}, []int{1, 2}, []int{1}, []int{1}, []int{1, 3}, []int{0}
+		c[3], c[7], c[8] = []int{1}, []int{1}, []int{1}
+		blocks = []block{{name: "A:shapes", sets: a}, {name: "B:1MiB", sets: b, keep: func(idx []int) bool { return idx[3] == 2 || idx[7] == 3 }}, {name: "C:peer-listener", sets: c}}
+	}
+	// violations are collected per signature and the case with the smallest enumeration index is reported, so the
+	// replay of every signature is the same (simplest) case in every run, whatever the worker interleaving
+	type pending struct {
+		ord    int64
+		what   string
+		replay any
+	}
+	var pmu sync.Mutex
+	pend := map[string]pending{}
+	for bn, blk := range blocks {
+		bn, blk := bn, blk
+		bdims := make([]int, 9)
+		for i := range bdims {
+			bdims[i] = len(blk.sets[i])
 		}
-		w := <-pool
-		defer func() { pool <- w }()
-
-		target := pc.Path
-		if q != "" {
-			target += "?" + q
-		}
-		upLines := append([]string{}, uh.Lines...)
-		if st.Location != "" {
-			upLines = append(upLines, "Location: "+st.Location)
-		}
-		c := caseDesc{Method: method, Target: target, ReqBody: rb.Name, ReqHeaders: rh.Name, Status: st.Code, Location: st.Location,
-			UpHeaders: uh.Name, UpBody: ub.Name, Listener: l.String(), ReqHeaderLines: rh.Lines, UpHeaderLines: upLines}
-		wantUpBody := ub.Data
-		if method == "HEAD" || st.Code == 204 {
-			wantUpBody = nil // HTTP: no body on these
-		}
-		w.api.arm(answer{Status: st.Code, Lines: upLines, Body: ub.Data})
-
-		req, err := http.ReadRequest(bufio.NewReader(bytes.NewReader(clientWire(method, target, rh.Lines, rb.Data))))
-		if err != nil {
-			ev.Harness("client request does not parse: %v (%s %s)", err, method, target)
-		}
-		req.RemoteAddr = clientAddr
-		rec := httptest.NewRecorder()
-		w.n.ServeHTTP(l, rec, req)
-		res := rec.Result() // header snapshot as of WriteHeader = what goes on the wire
-		gotBody := rec.Body.Bytes()
-		seen := w.api.taken()
-		if other := w.n.Net.Requests(); len(other) > 0 {
-			w.n.Net.Reset()
-			ev.Harness("request left through the fixture's MemNet instead of the fake API: %s %s%s", other[0].Method, other[0].BaseURL, other[0].Path)
-		}
-
-		nfail := 0
-		fail := func(sig, what string) {
-			nfail++
-			r.Violation(sig, fmt.Sprintf("%s; case=%s", what, ev.J(c)), c)
-		}
-		r.Distinct("distinct_nontrivial", strings.Join([]string{method, target, rb.Name, rh.Name, fmt.Sprint(st.Code), uh.Name, ub.Name}, "|"))
-
-		// ---------------- request side
-		if len(seen) == 0 {
-			fail("request:not-relayed:"+method+" "+pc.Path, fmt.Sprintf("nothing reached the Honeycomb API; client got %d %s", res.StatusCode, trunc(string(gotBody), 120)))
-			return
-		}
-		u := seen[0]
-		if u.Host != apiHost || u.Scheme != "http" {
-			fail("request:destination", fmt.Sprintf("sent to %s://%s, configured API is http://%s", u.Scheme, u.Host, apiHost))
-		}
-		if u.Method != method {
-			fail("request:method:"+method, fmt.Sprintf("upstream saw method %s, client sent %s", u.Method, method))
-		}
-		if u.URI != target {
-			class := "path:" + pc.Path
-			if strings.SplitN(u.URI, "?", 2)[0] == pc.Path {
-				class = "query"
+		enumx.Each(r, "proxy/"+blk.name, bdims, workers, func(bidx []int) {
+			idx := make([]int, 9)
+			for i := range idx {
+				idx[i] = blk.sets[i][bidx[i]]
 			}
-			fail("request:target:"+class, fmt.Sprintf("upstream saw request-target %q, client sent %q", u.URI, target))
-		}
-		if d := bodyDiff(u.Body, rb.Data); d != "" {
-			fail("request:body:"+rb.Name, "upstream saw a different body: "+d)
-		}
-		ch := parseLines(rh.Lines)
-		nominated := map[string]bool{}
-		for _, v := range ch["Connection"] {
-			for _, p := range strings.Split(v, ",") {
-				nominated[textproto.CanonicalMIMEHeaderKey(strings.TrimSpace(p))] = true
+			if blk.keep != nil && !blk.keep(idx) {
+				r.Add("skipped_covered_by_other_block", 1)
+				return
 			}
-		}
-		skipReq := func(k string) bool {
-			return hopByHop[k] || nominated[k] || k == "Content-Length" || k == "Host" || k == "X-Forwarded-For"
-		}
-		for _, k := range sortedKeys(ch) {
-			if skipReq(k) {
-				if _, ok := u.Header[k]; ok && (hopByHop[k] || nominated[k]) {
-					r.Distinct("hop_by_hop_request_headers_forwarded", k)
+			method, pc, q, rb, rh := methods[idx[0]], paths[idx[1]], queries[idx[2]], reqBodies[idx[3]], reqHdrSets[idx[4]]
+			st, uh, ub, l := statuses[idx[5]], upHdrSets[idx[6]], upBodies[idx[7]], listeners[idx[8]]
+			if in(pc.HandledFor, method) {
+				r.Add("skipped_handled_by_refinery", 1)
+				return
+			}
+			w := <-pool
+			defer func() { pool <- w }()
+
+			target := pc.Path
+			if q != "" {
+				target += "?" + q
+			}
+			upLines := append([]string{}, uh.Lines...)
+			if st.Location != "" {
+				upLines = append(upLines, "Location: "+st.Location)
+			}
+			c := caseDesc{Method: method, Target: target, ReqBody: rb.Name, ReqHeaders: rh.Name, Status: st.Code, Location: st.Location,
+				UpHeaders: uh.Name, UpBody: ub.Name, Listener: l.String(), ReqHeaderLines: rh.Lines, UpHeaderLines: upLines}
+			wantUpBody := ub.Data
+			if method == "HEAD" || st.Code == 204 {
+				wantUpBody = nil // HTTP: no body on these
+			}
+			w.api.arm(answer{Status: st.Code, Lines: upLines, Body: ub.Data})
+
+			req, err := http.ReadRequest(bufio.NewReaderSize(bytes.NewReader(clientWire(method, target, rh.Lines, rb.Data)), 1024))
+			if err != nil {
+				ev.Harness("client request does not parse: %v (%s %s)", err, method, target)
+			}
+			req.RemoteAddr = clientAddr
+			rec := httptest.NewRecorder()
+			w.n.ServeHTTP(l, rec, req)
+			res := rec.Result() // header snapshot as of WriteHeader = what goes on the wire
+			gotBody := rec.Body.Bytes()
+			seen := w.api.taken()
+			if other := w.n.Net.Requests(); len(other) > 0 {
+				w.n.Net.Reset()
+				ev.Harness("request left through the fixture's MemNet instead of the fake API: %s %s%s", other[0].Method, other[0].BaseURL, other[0].Path)
+			}
+
+			ord := int64(bn)
+			for i := range bidx {
+				ord = ord*int64(bdims[i]+1) + int64(bidx[i])
+			}
+			nfail := 0
+			fail := func(sig, what string) {
+				nfail++
+				pmu.Lock()
+				if p, ok := pend[sig]; !ok || ord < p.ord {
+					pend[sig] = pending{ord, fmt.Sprintf("%s; case=%s", what, ev.J(c)), c}
 				}
-				continue
+				pmu.Unlock()
 			}
-			if g, want := valueList(u.Header[k]), valueList(ch[k]); g != want {
-				fail("request:header-value:"+rh.Name+":"+k, fmt.Sprintf("upstream saw %s: %q, client sent %q", k, u.Header[k], ch[k]))
-			}
-		}
-		for _, k := range sortedKeys(u.Header) {
-			if _, sent := ch[k]; sent || skipReq(k) {
-				continue
-			}
-			if k == "User-Agent" || k == "Accept-Encoding" {
-				continue // net/http's client supplies these when the request has none
-			}
-			fail("request:header-added:"+k, fmt.Sprintf("upstream saw header %s: %q which the client did not send", k, u.Header[k]))
-		}
-		// X-Forwarded-For: the client's chain (all field lines) followed by one entry naming the client
-		var wantChain []string
-		for _, v := range ch["X-Forwarded-For"] {
-			for _, p := range strings.Split(v, ",") {
-				wantChain = append(wantChain, strings.TrimSpace(p))
-			}
-		}
-		var gotChain []string
-		for _, v := range u.Header["X-Forwarded-For"] {
-			for _, p := range strings.Split(v, ",") {
-				gotChain = append(gotChain, strings.TrimSpace(p))
-			}
-		}
-		xffOK := len(gotChain) == len(wantChain)+1 && strings.Contains(gotChain[len(gotChain)-1], clientIP)
-		for i := 0; xffOK && i < len(wantChain); i++ {
-			xffOK = gotChain[i] == wantChain[i]
-		}
-		if !xffOK {
-			fail("request:x-forwarded-for:"+rh.Name, fmt.Sprintf("upstream saw X-Forwarded-For chain %q; expected the client's chain %q followed by an entry for the client %s", gotChain, wantChain, clientIP))
-		}
+			r.Distinct("distinct_nontrivial", strings.Join([]string{method, target, rb.Name, rh.Name, fmt.Sprint(st.Code), uh.Name, ub.Name}, "|"))
 
-		// ---------------- response side
-		isRedirect := st.Code >= 300 && st.Code < 400 && st.Location != ""
-		if len(seen) > 1 {
-			if isRedirect {
-				fail(fmt.Sprintf("response:redirect-followed:%d", st.Code), fmt.Sprintf("upstream answered %d Location: %s; Refinery followed it itself (%d further request(s), first: %s %s://%s%s with %d body bytes) and the client got %d %s instead of the %d",
-					st.Code, st.Location, len(seen)-1, seen[1].Method, seen[1].Scheme, seen[1].Host, seen[1].URI, len(seen[1].Body), res.StatusCode, trunc(string(gotBody), 60), st.Code))
-			} else {
-				fail("upstream:request-repeated", fmt.Sprintf("%d requests reached the API for one client request", len(seen)))
+			// ---------------- request side
+			if len(seen) == 0 {
+				fail("request:not-relayed:"+method+" "+pc.Path, fmt.Sprintf("nothing reached the Honeycomb API; client got %d %s", res.StatusCode, trunc(string(gotBody), 120)))
+				return
 			}
-			return
-		}
-		if res.StatusCode != st.Code {
-			fail(fmt.Sprintf("response:status:%d", st.Code), fmt.Sprintf("client got status %d, upstream answered %d", res.StatusCode, st.Code))
-		}
-		uph := parseLines(upLines)
-		skipResp := func(k string) bool { return hopByHop[k] || k == "Content-Length" || k == "Date" }
-		for _, k := range sortedKeys(uph) {
-			if skipResp(k) {
-				continue
+			u := seen[0]
+			if u.Host != apiHost || u.Scheme != "http" {
+				fail("request:destination", fmt.Sprintf("sent to %s://%s, configured API is http://%s", u.Scheme, u.Host, apiHost))
 			}
-			if g, want := valueList(res.Header[k]), valueList(uph[k]); g != want {
-				fail("response:header-value:"+uh.Name+":"+k, fmt.Sprintf("client got %s: %q, upstream sent %q", k, res.Header[k], uph[k]))
+			if u.Method != method {
+				fail("request:method:"+method, fmt.Sprintf("upstream saw method %s, client sent %s", u.Method, method))
 			}
-		}
-		for _, k := range sortedKeys(res.Header) {
-			if _, sent := uph[k]; sent || skipResp(k) {
-				continue
+			if u.URI != target {
+				class := "path:" + pc.Path
+				if strings.SplitN(u.URI, "?", 2)[0] == pc.Path {
+					class = "query"
+				}
+				fail("request:target:"+class, fmt.Sprintf("upstream saw request-target %q, client sent %q", u.URI, target))
 			}
-			if k == "Content-Type" || k == "Access-Control-Allow-Origin" {
-				r.Distinct("refinery_default_response_headers_seen", k)
-				continue // Refinery's own defaults, present only because upstream sent none (weak reading)
+			if d := bodyDiff(u.Body, rb.Data); d != "" {
+				fail("request:body:"+rb.Name, "upstream saw a different body: "+d)
 			}
-			fail("response:header-added:"+k, fmt.Sprintf("client got header %s: %q which upstream did not send", k, res.Header[k]))
-		}
-		if d := bodyDiff(gotBody, wantUpBody); d != "" {
-			fail("response:body:"+ub.Name, "client got a different body: "+d)
-		}
-		if nfail == 0 {
-			r.Add("faithful_cases", 1)
-			if r.Count("sampled") < 8 && idx[8] == 0 && idx[7] == 1 && idx[3] == 1 && idx[2] == 1 && idx[4] == idx[0]%len(reqHdrSets) && idx[5] == idx[0]%len(statuses) {
-				r.Add("sampled", 1)
-				r.Sample(map[string]any{"case": c, "upstream_saw": map[string]any{"method": u.Method, "target": u.URI, "header": u.Header, "body_bytes": len(u.Body)},
-					"client_got": map[string]any{"status": res.StatusCode, "header": res.Header, "body_bytes": len(gotBody)}})
+			ch := parseLines(rh.Lines)
+			nominated := map[string]bool{}
+			for _, v := range ch["Connection"] {
+				for _, p := range strings.Split(v, ",") {
+					nominated[textproto.CanonicalMIMEHeaderKey(strings.TrimSpace(p))] = true
+				}
 			}
-		}
-	})
+			skipReq := func(k string) bool {
+				return hopByHop[k] || nominated[k] || k == "Content-Length" || k == "Host" || k == "X-Forwarded-For"
+			}
+			for _, k := range sortedKeys(ch) {
+				if skipReq(k) {
+					if _, ok := u.Header[k]; ok && (hopByHop[k] || nominated[k]) {
+						r.Distinct("hop_by_hop_request_headers_forwarded", k)
+					}
+					continue
+				}
+				if g, want := valueList(u.Header[k]), valueList(ch[k]); g != want {
+					fail("request:header-value:"+rh.Name+":"+k, fmt.Sprintf("upstream saw %s: %q, client sent %q", k, u.Header[k], ch[k]))
+				}
+			}
+			for _, k := range sortedKeys(u.Header) {
+				if _, sent := ch[k]; sent || skipReq(k) {
+					continue
+				}
+				if k == "User-Agent" || k == "Accept-Encoding" {
+					continue // net/http's client supplies these when the request has none
+				}
+				fail("request:header-added:"+k, fmt.Sprintf("upstream saw header %s: %q which the client did not send", k, u.Header[k]))
+			}
+			// X-Forwarded-For: the client's chain (all field lines) followed by one entry naming the client
+			var wantChain []string
+			for _, v := range ch["X-Forwarded-For"] {
+				for _, p := range strings.Split(v, ",") {
+					wantChain = append(wantChain, strings.TrimSpace(p))
+				}
+			}
+			var gotChain []string
+			for _, v := range u.Header["X-Forwarded-For"] {
+				for _, p := range strings.Split(v, ",") {
+					gotChain = append(gotChain, strings.TrimSpace(p))
+				}
+			}
+			xffOK := len(gotChain) == len(wantChain)+1 && strings.Contains(gotChain[len(gotChain)-1], clientIP)
+			for i := 0; xffOK && i < len(wantChain); i++ {
+				xffOK = gotChain[i] == wantChain[i]
+			}
+			if !xffOK {
+				fail("request:x-forwarded-for:"+rh.Name, fmt.Sprintf("upstream saw X-Forwarded-For chain %q; expected the client's chain %q followed by an entry for the client %s", gotChain, wantChain, clientIP))
+			}
+
+			// ---------------- response side
+			isRedirect := st.Code >= 300 && st.Code < 400 && st.Location != ""
+			if len(seen) > 1 {
+				if isRedirect {
+					fail(fmt.Sprintf("response:redirect-followed:%d", st.Code), fmt.Sprintf("upstream answered %d Location: %s; Refinery followed it itself (%d further request(s), first: %s %s://%s%s with %d body bytes) and the client got %d %s instead of the %d; the follow-up carried the client's X-Honeycomb-Team: %v",
+						st.Code, st.Location, len(seen)-1, seen[1].Method, seen[1].Scheme, seen[1].Host, seen[1].URI, len(seen[1].Body), res.StatusCode, trunc(string(gotBody), 60), st.Code,
+						ch.Get("X-Honeycomb-Team") != "" && seen[1].Header.Get("X-Honeycomb-Team") == ch.Get("X-Honeycomb-Team")))
+				} else {
+					fail("upstream:request-repeated", fmt.Sprintf("%d requests reached the API for one client request", len(seen)))
+				}
+				return
+			}
+			if res.StatusCode != st.Code {
+				fail(fmt.Sprintf("response:status:%d", st.Code), fmt.Sprintf("client got status %d, upstream answered %d", res.StatusCode, st.Code))
+			}
+			uph := parseLines(upLines)
+			skipResp := func(k string) bool { return hopByHop[k] || k == "Content-Length" || k == "Date" }
+			for _, k := range sortedKeys(uph) {
+				if skipResp(k) {
+					continue
+				}
+				if g, want := valueList(res.Header[k]), valueList(uph[k]); g != want {
+					fail("response:header-value:"+uh.Name+":"+k, fmt.Sprintf("client got %s: %q, upstream sent %q", k, res.Header[k], uph[k]))
+				}
+			}
+			for _, k := range sortedKeys(res.Header) {
+				if _, sent := uph[k]; sent || skipResp(k) {
+					continue
+				}
+				if k == "Content-Type" || k == "Access-Control-Allow-Origin" {
+					r.Distinct("refinery_default_response_headers_seen", k)
+					continue // Refinery's own defaults, present only because upstream sent none (weak reading)
+				}
+				fail("response:header-added:"+k, fmt.Sprintf("client got header %s: %q which upstream did not send", k, res.Header[k]))
+			}
+			if d := bodyDiff(gotBody, wantUpBody); d != "" {
+				fail("response:body:"+ub.Name, "client got a different body: "+d)
+			}
+			if nfail == 0 {
+				r.Add("faithful_cases", 1)
+				if r.Count("sampled") < 8 && idx[8] == 0 && idx[7] == 1 && idx[3] == 1 && idx[2] == 1 && idx[4] == idx[0]%len(reqHdrSets) && idx[5] == idx[0]%len(statuses) {
+					r.Add("sampled", 1)
+					r.Sample(map[string]any{"case": c, "upstream_saw": map[string]any{"method": u.Method, "target": u.URI, "header": u.Header, "body_bytes": len(u.Body)},
+						"client_got": map[string]any{"status": res.StatusCode, "header": res.Header, "body_bytes": len(gotBody)}})
+				}
+			}
+		})
+		r.Add("blocks", 1)
+	}
 	for i := 0; i < workers; i++ {
 		(<-pool).n.Close()
+	}
+	var sigs []string
+	for sig := range pend {
+		sigs = append(sigs, sig)
+	}
+	sort.Strings(sigs)
+	for _, sig := range sigs {
+		r.Violation(sig, pend[sig].what, pend[sig].replay)
 	}
 
 	names := func(hs []hdrSet) (out []string) {
@@ -487,7 +550,7 @@ func main() {
 	r.Set("rule", "upstream (parsed from the wire form of the relayed request): same method, request-target, body, every end-to-end client header with the same comma-joined value list, nothing added except client-library defaults, X-Forwarded-For = client's chain + the client; client: upstream status, every upstream header with the same comma-joined value list (Refinery defaults only where upstream sent none), same body")
 	r.Set("bounds", map[string]any{"methods": methods, "paths": pn, "queries": queries, "request_bodies": []string{"empty", "small", "1MiB"}, "request_header_sets": names(reqHdrSets),
 		"upstream_statuses": sn, "upstream_header_sets": names(upHdrSets), "upstream_bodies": []string{"empty", "small", "binary-256", "1MiB"}, "listeners": []string{"incoming", "peer"},
-		"quick_reduction": "peer listener is not combined with the 1 MiB bodies in quick"})
+		"quick_blocks": "A: all x request bodies {empty,small} x upstream bodies {empty,small,binary} x incoming; B: 1 MiB on the request side, the answer side, or both x all methods x all statuses (multi-valued header sets, /x%2Fy with query, incoming); C: peer listener x all with small bodies. thorough = the full product"})
 	r.Assume("multi-valued headers (several field lines) are compared as the comma-joined list of their values — HTTP treats the two forms as equivalent (Set-Cookie, which is not, is outside the enumerated sets)")
 	r.Assume("hop-by-hop headers (Connection, Keep-Alive, TE, Trailer, Transfer-Encoding, Upgrade, Proxy-Authorization/-Authenticate and anything named in Connection), Content-Length, Host and Date are excluded from both comparisons: HTTP itself makes them per-hop; whether Refinery forwards them is only recorded (hop_by_hop_request_headers_forwarded)")
 	r.Assume("upstream may additionally see User-Agent / Accept-Encoding supplied by Go's HTTP client when the client request carried none; anything else that the client did not send is a violation")
